@@ -206,11 +206,12 @@ def find_fill_value(data_array: xarray.DataArray) -> Any:
     if (
         encoded_dtype is not None
         and numpy.dtype(encoded_dtype).kind in 'iub'
-        and '_FillValue' not in data_array.encoding
-        and 'missing_value' not in data_array.encoding
+        and data_array.encoding.get('_FillValue') is None
+        and data_array.encoding.get('missing_value') is None
     ):
         # A variable packed in to an integer type on disk, without any fill value.
         # It is a float variable in memory, but a nan can not be saved.
+        # `_FillValue: None` is the marker for "no fill value" (see utils.disable_default_fill_value).
         raise ValueError("No appropriate fill value found")
 
     promoted_dtype, fill_value = maybe_promote(data_array.dtype)
